@@ -11,7 +11,7 @@ ID = 'C16'
 LEVEL = 'exploration'
 BUDGET = {'quick': 240, 'thorough': 2400}
 CHUNK = 1
-RULE = ('(a) Complete enumeration of every full k-mer for k in {5,7,9} (quick) / {5,7,9,11} (thorough), in u64 and u128: packing '
+RULE = ('(a) Complete enumeration of every full k-mer for k in {5,7,9,11}, in u64 and u128: packing '
         'by the sequence reader, decode, encode_kmer/skalo_decode_kmer, packed reverse complement of the arms (and of the full '
         'k-mer) against a string-level reference, involution, canonical choice and self-complement flag, strand-symmetric hash. '
         '(b) For all 30 odd k and both widths (u64 only for k<=31): structured k-mers (all-A..all-G, one non-background base '
@@ -37,7 +37,7 @@ def widths(k):
 
 def plan(tier, seed, rng, scale):
     descs = []
-    enum_k = [5, 7, 9] if tier == 'quick' else [5, 7, 9, 11]
+    enum_k = [5, 7, 9, 11]
     for k in enum_k:
         for w in (64, 128):
             shards = {5: 1, 7: 1, 9: 4, 11: 32}[k]
@@ -268,6 +268,6 @@ def run_case(desc, ctx):
 def coverage_extra(tier, counters, sets):
     n = counters.get('enum_kmers_checked', 0)
     return {'exhaustive': True,
-            'exhaustive_scope': 'complete only for the enumeration part: every full k-mer for k in %s in both widths; structured, '
-                                'random and sliding parts are sampled' % ('{5,7,9}' if tier == 'quick' else '{5,7,9,11}'),
+            'exhaustive_scope': 'complete only for the enumeration part: every full k-mer for k in {5,7,9,11} in both widths; structured, '
+                                'random and sliding parts are sampled',
             'distinct_kmers_checked': n}
